@@ -412,4 +412,183 @@ theorem filter_flatMap_bg (rs all : List (Req α)) (hsub : ∀ r ∈ rs, r ∈ a
       filter_keep_oks P _ k2, mid_keep P _ _ k1]
     simp [hterm]
 
+
+/-! ### rendered event streams -/
+
+theorem rdrop_snoc (p : Char → Bool) (s : Str) (c : Char) :
+    rdrop p (s ++ [c]) = if p c then rdrop p s else s ++ [c] := by
+  unfold rdrop
+  by_cases h : p c <;> simp [List.reverse_append, h]
+
+theorem rdrop_id (p : Char → Bool) (s : Str) (h : ∀ c, s.getLast? = some c → p c = false) :
+    rdrop p s = s := by
+  rcases List.eq_nil_or_concat s with rfl | ⟨init, c, rfl⟩
+  · simp [rdrop]
+  · have := h c (by simp)
+    simp [rdrop_snoc, this]
+
+theorem rstripCR_cr (s : Str) (crlf : Bool) (h : ∀ c, s.getLast? = some c → c ≠ '\r') :
+    rstripCR (s ++ (if crlf then ['\r'] else [])) = s := by
+  have hid : rstripCR s = s := rdrop_id _ s (by intro c hc; simpa using h c hc)
+  cases crlf
+  · simpa using hid
+  · simp only [if_true, rstripCR]
+    rw [rdrop_snoc]
+    simpa [rstripCR] using hid
+
+theorem strip_clean (d : Str) (h : CleanText d) : strip d = d := by
+  obtain ⟨_, hh, hl⟩ := h
+  have h1 : d.dropWhile isWs = d := by
+    cases d with
+    | nil => rfl
+    | cons x xs =>
+      have := hh x rfl
+      simp [this]
+  unfold strip
+  rw [h1]
+  exact rdrop_id _ d hl
+
+theorem stripPrefix_append (p s : Str) : stripPrefix p (p ++ s) = some s := by
+  induction p with
+  | nil => cases s <;> simp [stripPrefix]
+  | cons x xs ih => simp [stripPrefix, ih]
+
+/-- the three event names the transport knows -/
+def KnownName (n : Str) : Prop := n = sEndpoint ∨ n = sMessage ∨ n = sKeepalive
+
+theorem stepLine_event (st : LSt) (n : Str) (crlf : Bool) (hn : KnownName n) :
+    stepLine st (sEventPfx ++ n ++ (if crlf then ['\r'] else [])) = ({ st with cur := some n }, []) := by
+  have hlast : ∀ c, (sEventPfx ++ n).getLast? = some c → c ≠ '\r' := by
+    rcases hn with h | h | h <;> subst h <;> intro c hc <;>
+      simp [sEventPfx, sEndpoint, sMessage, sKeepalive] at hc <;> subst hc <;> decide
+  have hstrip : strip n = n := by
+    rcases hn with h | h | h <;> subst h <;> decide
+  unfold stepLine
+  simp only [rstripCR_cr _ crlf hlast]
+  have hne : sEventPfx ++ n ≠ [] := by simp [sEventPfx]
+  simp [hne, stripPrefix_append, hstrip]
+
+theorem stepLine_data (st : LSt) (d : Str) (crlf : Bool) (hd : CleanText d) :
+    stepLine st (sDataPfx ++ d ++ (if crlf then ['\r'] else [])) =
+      (if st.cur = some sEndpoint then ({ st with haveUrl := decide (strip d ≠ []) }, [.endpoint d])
+       else if st.cur = some sMessage then (st, [.message d])
+       else if st.cur = some sKeepalive then (st, [])
+       else if !st.haveUrl && (hasSub sMessages d || hasSub sMcp d) then
+          ({ st with haveUrl := decide (strip d ≠ []) }, [.endpoint d])
+       else if startsWith ['{'] d && hasSub sJsonrpc d then (st, [.message d])
+       else (st, [])) := by
+  have hlast : ∀ c, (sDataPfx ++ d).getLast? = some c → c ≠ '\r' := by
+    intro c hc
+    rw [List.getLast?_append] at hc
+    cases hdl : d.getLast? with
+    | none =>
+      simp [hdl, sDataPfx] at hc
+      subst hc; decide
+    | some x =>
+      simp [hdl] at hc
+      subst hc
+      have := hd.2.2 x hdl
+      intro hx; subst hx; revert this; decide
+  unfold stepLine
+  simp only [rstripCR_cr _ crlf hlast]
+  have hne : sDataPfx ++ d ≠ [] := by simp [sDataPfx]
+  have hev : stripPrefix sEventPfx (sDataPfx ++ d) = none := by simp [stripPrefix, sEventPfx, sDataPfx]
+  simp only [hne, if_false, hev, stripPrefix_append, strip_clean d hd]
+
+theorem stepLine_blank (st : LSt) (crlf : Bool) :
+    stepLine st (if crlf then ['\r'] else []) = ({ st with cur := none }, []) := by
+  cases crlf <;> simp [stepLine, rstripCR, rdrop]
+
+theorem dropWhile_snoc_keep (p : Char → Bool) (r : Str) (x : Char) (hx : p x = false) :
+    List.dropWhile p (r ++ [x]) = List.dropWhile p r ++ [x] := by
+  induction r with
+  | nil => simp [hx]
+  | cons y ys ih =>
+    by_cases hy : p y <;> simp [hy, ih]
+
+theorem rdrop_cons_keep (p : Char → Bool) (x : Char) (s : Str) (hx : p x = false) :
+    rdrop p (x :: s) = x :: rdrop p s := by
+  simp [rdrop, dropWhile_snoc_keep p _ x hx]
+
+theorem stepLine_comment (st : LSt) (c : Str) (crlf : Bool) :
+    stepLine st (':' :: c ++ (if crlf then ['\r'] else [])) = (st, []) := by
+  unfold stepLine
+  have : rstripCR (':' :: c ++ (if crlf then ['\r'] else [])) =
+      ':' :: rstripCR (c ++ (if crlf then ['\r'] else [])) := by
+    simp only [List.cons_append, rstripCR]
+    exact rdrop_cons_keep _ ':' _ (by decide)
+  rw [this]
+  simp [stripPrefix, sEventPfx, sDataPfx]
+
+theorem splitLF_line (l rest : Str) (h : '\n' ∉ l) :
+    splitLF (l ++ '\n' :: rest) = (l :: (splitLF rest).1, (splitLF rest).2) := by
+  induction l with
+  | nil => simp [splitLF]
+  | cons x xs ih =>
+    have hx : x ≠ '\n' := by intro e; simp [e] at h
+    have hxs : '\n' ∉ xs := by intro e; exact h (List.mem_cons_of_mem _ e)
+    simp [splitLF, hx, ih hxs]
+
+theorem splitLF_join (lines : List Str) (h : ∀ l ∈ lines, '\n' ∉ l) :
+    splitLF (joinLF lines) = (lines, []) := by
+  induction lines with
+  | nil => simp [joinLF, splitLF]
+  | cons l ls ih =>
+    simp only [joinLF]
+    rw [splitLF_line l _ (h l (by simp)), ih (fun x hx => h x (by simp [hx]))]
+
+
+theorem evLines_noLF (e : Ev) (crlf : Bool) (h : e.Clean) : ∀ l ∈ evLines e crlf, '\n' ∉ l := by
+  intro l hl
+  cases e with
+  | endpoint d =>
+    simp only [evLines, List.mem_cons, List.not_mem_nil, or_false] at hl
+    rcases hl with rfl | rfl | rfl <;> cases crlf <;> simp [sEventPfx, sEndpoint, sDataPfx, h.1]
+  | message d =>
+    simp only [evLines, List.mem_cons, List.not_mem_nil, or_false] at hl
+    rcases hl with rfl | rfl | rfl <;> cases crlf <;> simp [sEventPfx, sMessage, sDataPfx, h.1]
+  | keepalive d =>
+    simp only [evLines, List.mem_cons, List.not_mem_nil, or_false] at hl
+    rcases hl with rfl | rfl | rfl <;> cases crlf <;> simp [sEventPfx, sKeepalive, sDataPfx, h.1]
+  | comment c =>
+    simp only [evLines, List.mem_cons, List.not_mem_nil, or_false] at hl
+    subst hl
+    have : '\n' ∉ c := h
+    cases crlf <;> simp [this]
+
+/-- one rendered event, read by the parser between events: exactly the event's action -/
+theorem stepLines_event (st : LSt) (hcur : st.cur = none) (e : Ev) (crlf : Bool) (h : e.Clean) :
+    (stepLines st (evLines e crlf)).2 = e.act.toList ∧ (stepLines st (evLines e crlf)).1.cur = none := by
+  cases e with
+  | endpoint d =>
+    simp only [evLines, stepLines, stepLine_event st sEndpoint crlf (Or.inl rfl)]
+    rw [stepLine_data _ d crlf h]
+    simp [stepLine_blank, Ev.act]
+  | message d =>
+    simp only [evLines, stepLines, stepLine_event st sMessage crlf (Or.inr (Or.inl rfl))]
+    rw [stepLine_data _ d crlf h]
+    have : sMessage ≠ sEndpoint := by decide
+    simp [stepLine_blank, Ev.act, this]
+  | keepalive d =>
+    simp only [evLines, stepLines, stepLine_event st sKeepalive crlf (Or.inr (Or.inr rfl))]
+    rw [stepLine_data _ d crlf h]
+    have h1 : sKeepalive ≠ sEndpoint := by decide
+    have h2 : sKeepalive ≠ sMessage := by decide
+    simp [stepLine_blank, Ev.act, h1, h2]
+  | comment c =>
+    have := stepLine_comment st c crlf
+    simp only [List.cons_append] at this
+    simp [evLines, stepLines, this, Ev.act, hcur]
+
+theorem stepLines_events (st : LSt) (hcur : st.cur = none) (evs : List (Ev × Bool))
+    (h : ∀ p ∈ evs, p.1.Clean) :
+    (stepLines st (evs.flatMap (fun p => evLines p.1 p.2))).2 = evs.filterMap (fun p => p.1.act) := by
+  induction evs generalizing st with
+  | nil => simp [stepLines]
+  | cons p ps ih =>
+    have hp := stepLines_event st hcur p.1 p.2 (h p (by simp))
+    simp only [List.flatMap_cons, stepLines_append, List.filterMap_cons]
+    rw [ih _ hp.2 (fun x hx => h x (by simp [hx])), hp.1]
+    cases p.1.act <;> simp
+
 end Verif.Model.SseReq
